@@ -750,20 +750,6 @@ theorem loaded_eq_self (f : TFld)
 
 /-! ## the legacy reader -/
 
-theorem legacyLoad_never_ok (l : Legacy) : ∃ e, legacyLoad l = .error e := by
-  unfold legacyLoad legacyLoadWith
-  cases TReg.init l.p1 l.p2 none none TReg.defaultTol with
-  | error e => exact ⟨e, rfl⟩
-  | ok r =>
-    simp only [bind_ok]
-    cases TMesh.init r l.n "" [] with
-    | error e => exact ⟨e, rfl⟩
-    | ok m =>
-      simp only [bind_ok]
-      cases sidecarLoad m l.sidecar with
-      | error e => exact ⟨e, rfl⟩
-      | ok m' => exact ⟨.type, rfl⟩
-
 namespace NumArr
 
 theorem minimum_length (a b : NumArr) (hl : b.length = a.length) : (minimum a b).length = a.length := by
@@ -789,7 +775,7 @@ theorem maximum_vals (a b : NumArr) : (maximum a b).vals = List.zipWith max a.va
 
 end NumArr
 
-/-- the field the documented legacy reader (component count passed as `nvdim`) returns -/
+/-- the field the legacy reader returns for a file without side-car -/
 def legacyField (l : Legacy) : TFld :=
   { mesh := { region := { pmin := NumArr.minimum l.p1 l.p2, pmax := NumArr.maximum l.p1 l.p2,
                           dims := Region.defaultDims l.p1.length, units := List.replicate l.p1.length "m",
@@ -802,18 +788,39 @@ def legacyField (l : Legacy) : TFld :=
     vmap := defaultVmap l.dim.toNat (Region.defaultDims l.p1.length) (Fld.defaultVdims l.dim.toNat),
     unit := none }
 
-theorem legacyLoadDoc_ok (l : Legacy) (h0 : 0 < l.p1.length) (hl : l.p2.length = l.p1.length)
+/-- the side-car only sets the subregions -/
+theorem sidecarLoad_keeps (m m' : TMesh) (sc : Option (List (String × H5Region)))
+    (h : sidecarLoad m sc = .ok m') : m'.region = m.region ∧ m'.n = m.n ∧ m'.bc = m.bc := by
+  cases sc with
+  | none =>
+    simp only [sidecarLoad] at h
+    cases h
+    exact ⟨rfl, rfl, rfl⟩
+  | some l =>
+    simp only [sidecarLoad] at h
+    cases h1 : mapE (fun p => (regionLoad p.2).bind fun s => Except.ok (p.1, s)) l with
+    | error e => rw [h1] at h; cases h
+    | ok ss =>
+      rw [h1] at h
+      simp only [bind_ok] at h
+      cases h2 : setSubs m.region m.n (dictOf ss) with
+      | error e => rw [h2] at h; cases h
+      | ok ss' =>
+        rw [h2] at h
+        simp only [bind_ok] at h
+        cases h
+        exact ⟨rfl, rfl, rfl⟩
+
+/-- the legacy reader on a well-formed legacy file, whatever the side-car contributes -/
+theorem legacyLoad_ok_gen (l : Legacy) (m' : TMesh) (h0 : 0 < l.p1.length) (hl : l.p2.length = l.p1.length)
     (hne : ∀ a, a < l.p1.length → l.p1.vals.getD a 0 ≠ l.p2.vals.getD a 0)
     (hn : l.n.length = l.p1.length) (hpos : ∀ k ∈ l.n, 0 < k) (hdim : 1 ≤ l.dim)
     (hs : l.array.shape = l.n.map Int.toNat ++ [l.dim.toNat])
     (hb : l.array.buf.length = natProd (l.n.map Int.toNat ++ [l.dim.toNat]))
-    (hsc : l.sidecar = none) :
-    legacyLoadDoc l = .ok (legacyField l) := by
-  unfold legacyLoadDoc legacyLoadWith
-  have hinit : TReg.init l.p1 l.p2 none none TReg.defaultTol
-      = .ok { pmin := NumArr.minimum l.p1 l.p2, pmax := NumArr.maximum l.p1 l.p2,
-              dims := Region.defaultDims l.p1.length, units := List.replicate l.p1.length "m",
-              tol := TReg.defaultTol } := by
+    (hsc : sidecarLoad (legacyField l).mesh l.sidecar = .ok m') :
+    legacyLoad l = .ok { legacyField l with mesh := m' } := by
+  unfold legacyLoad
+  have hinit : TReg.init l.p1 l.p2 none none TReg.defaultTol = .ok (legacyField l).mesh.region := by
     unfold TReg.init
     have h1 : ¬ l.p1.length ≠ l.p2.length := by omega
     have h2 : ¬ l.p1.length = 0 := by omega
@@ -822,9 +829,9 @@ theorem legacyLoadDoc_ok (l : Legacy) (h0 : 0 < l.p1.length) (hl : l.p2.length =
       intro a ha
       simpa using hne a ha
     simp only [h1, h2, if_false, Region.dimsOk, Region.unitsOk, h3, Bool.not_true, Bool.false_eq_true]
+    rfl
   rw [hinit]
   simp only [bind_ok]
-  change (TMesh.init (legacyField l).mesh.region l.n "" []).bind _ = _
   have hmesh : TMesh.init (legacyField l).mesh.region l.n "" [] = .ok (legacyField l).mesh := by
     unfold TMesh.init
     have h1 : ¬ l.n.length ≠ (legacyField l).mesh.region.pmin.length := by
@@ -841,20 +848,30 @@ theorem legacyLoadDoc_ok (l : Legacy) (h0 : 0 < l.p1.length) (hl : l.p2.length =
     simp only [TReg.ndim, h1, h2, h3, h4, if_false, Bool.not_true, Bool.false_eq_true, setSubs, List.all_nil, mapE, bind_ok]
     rfl
   rw [hmesh]
-  simp only [bind_ok, hsc, sidecarLoad]
+  simp only [bind_ok, hsc]
+  obtain ⟨hr', hn', _⟩ := sidecarLoad_keeps _ _ _ hsc
   unfold TFld.init
   have h1 : ¬ l.dim < 1 := by omega
-  have hmn : (legacyField l).mesh.n = l.n.map Int.toNat := rfl
+  have hmn : m'.n = l.n.map Int.toNat := by rw [hn']; rfl
   simp only [h1, if_false, hmn]
   rw [asArray_shaped l.array _ _ hs hb]
   simp only [bind_ok]
   rw [asArray_shaped _ _ _ rfl (by rw [DBuf.upcast_length]; exact hb)]
   simp only [bind_ok, asValid, vdimsSet, DBuf.upcast_idem]
-  have h5 : ¬ (l.dim.toNat ≠ 1 ∧ l.dim.toNat = (legacyField l).mesh.region.dims.length ∧ Fld.defaultVdims l.dim.toNat = none) := by
+  have h5 : ¬ (l.dim.toNat ≠ 1 ∧ l.dim.toNat = m'.region.dims.length ∧ Fld.defaultVdims l.dim.toNat = none) := by
     rintro ⟨hne1, _, hnone⟩
     exact hne1 ((defaultVdims_none_iff _).mp hnone)
-  rw [if_neg h5]
+  rw [if_neg h5, hr']
   rfl
+
+theorem legacyLoad_ok (l : Legacy) (h0 : 0 < l.p1.length) (hl : l.p2.length = l.p1.length)
+    (hne : ∀ a, a < l.p1.length → l.p1.vals.getD a 0 ≠ l.p2.vals.getD a 0)
+    (hn : l.n.length = l.p1.length) (hpos : ∀ k ∈ l.n, 0 < k) (hdim : 1 ≤ l.dim)
+    (hs : l.array.shape = l.n.map Int.toNat ++ [l.dim.toNat])
+    (hb : l.array.buf.length = natProd (l.n.map Int.toNat ++ [l.dim.toNat]))
+    (hsc : l.sidecar = none) :
+    legacyLoad l = .ok (legacyField l) := by
+  rw [legacyLoad_ok_gen l (legacyField l).mesh h0 hl hne hn hpos hdim hs hb (by rw [hsc]; rfl)]
 
 /-! ## suffix dispatch -/
 
